@@ -592,7 +592,17 @@ fn account_case(cx: &'static Arc<Ctx>, cref: CaseRef, out: Out, slept: u32, labe
 				l.push_str(" ...");
 			}
 			let cref = CaseRef { label: Arc::from(l), ..cref };
-			let v2 = Viol { key: v.key.clone(), msg: format!("{}: {}", cref.label, v.msg) };
+			// (very long messages - a 65,537-row id list - are cut; the artefact carries the case itself)
+			let mut m = v.msg.clone();
+			if m.len() > 2000 {
+				let mut cut = 2000;
+				while !m.is_char_boundary(cut) {
+					cut -= 1;
+				}
+				m.truncate(cut);
+				m.push_str(" ...");
+			}
+			let v2 = Viol { key: v.key.clone(), msg: format!("{}: {}", cref.label, m) };
 			let art = artefact(&cref, &v2);
 			g.push((v2, art));
 		}
